@@ -86,23 +86,35 @@ def mkBin (op : String) (a b : Expr) : M Expr :=
         pure (.bin d.res op a2 b2)
       else pure (.bin d.res op a1 b1)
 
-/-- `HplFunctionCall(f, args)`: arguments are only checked for compatibility with some overload -/
+/-- parameter types an overload offers to `n` arguments: its parameters, then the variadic type repeated -/
+def Sig.paramsFor (s : Sig) (n : Nat) : List DataType :=
+  s.params ++ List.replicate (n - s.params.length) (s.variadic.getD Gen.NONE)
+
+/-- `tuple(arg.cast(t) for arg, t in zip(arguments, params))` -/
+def castArgs : ExprList → List DataType → M ExprList
+  | .cons e es, t :: ts => do let e' ← castE e t; let es' ← castArgs es ts; pure (.cons e' es')
+  | _, _ => .ok .nil
+
+/-- `HplFunctionCall(f, args)`: the arguments must be compatible with some overload; when exactly one overload
+    accepts them they are narrowed to its parameter types (post-init) -/
 def mkCall (f : String) (args : ExprList) : M Expr :=
   match findFun f with
   | none => .error .value
   | some d =>
-      if d.overloads.any (·.accepts args.tys) then .ok (.call d.result f args)
-      else .error .type
+      match d.overloads.filter (·.accepts args.tys) with
+      | [] => .error .type
+      | [s] => do let args' ← castArgs args (s.paramsFor args.length); pure (.call d.result f args')
+      | _ => .ok (.call d.result f args)
 
 /-- `HplFieldAccess(m, name)` keeping / setting the node's own type `t` (`T.ACCESS` when fresh) -/
-def mkFieldT (t : DataType) (m : Expr) (name : String) : M Expr := do
+def mkFieldT (t : DataType) (m : Expr) (name : String) : M Expr :=
   if T.ACCESS &&& t = 0 then .error .type
-  let m' ← castE m T.MESSAGE; pure (.field t m' name)
+  else do let m' ← castE m T.MESSAGE; pure (.field t m' name)
 def mkField (m : Expr) (name : String) : M Expr := mkFieldT T.ACCESS m name
 
-def mkIndexT (t : DataType) (a i : Expr) : M Expr := do
+def mkIndexT (t : DataType) (a i : Expr) : M Expr :=
   if T.ACCESS &&& t = 0 then .error .type
-  let a' ← castE a T.ARRAY; let i' ← castE i T.NUMBER; pure (.index t a' i')
+  else do let a' ← castE a T.ARRAY; let i' ← castE i T.NUMBER; pure (.index t a' i')
 def mkIndex (a i : Expr) : M Expr := mkIndexT T.ACCESS a i
 
 def castList (t : DataType) : ExprList → M ExprList
@@ -137,9 +149,9 @@ def mkQuant (q : Quant) (x : String) (dom body : Expr) : M Expr := do
   let d ← castE dom T.COMPOUND
   let b ← castE body T.BOOL
   if d.preorder.any (isVarNamed x) then .error .sanity
-  let used ← quantBodyCheck x (domainElemType d) b.preorder 0
-  if used = 0 then .error .sanity
-  pure (.quant T.BOOL q x d b)
+  else do
+    let used ← quantBodyCheck x (domainElemType d) b.preorder 0
+    if used = 0 then .error .sanity else pure (.quant T.BOOL q x d b)
 
 /-! ### untyped syntax trees (what the grammar assigns to a text) and `build` -/
 mutual
